@@ -65,6 +65,35 @@ func driveSink(sink tokenSink, ts []tok.Token) (class string, used int) {
 	return
 }
 
+// poisonSink uses the encoder for something else first — a stream abandoned inside containers, right after
+// a key, a complete container, a complete scalar, in rotation — and then calls Reset, which is documented to
+// make the encoder ready for a new value whatever came before.
+var sinkPoison int
+
+func poisonSink(enc tokenSink) {
+	r, ok := enc.(interface{ Reset() })
+	if !ok {
+		return
+	}
+	sinkPoison++
+	seqs := [][]tok.Token{
+		{{Type: tok.TMapOpen, Length: -1}, {Type: tok.TString, Str: "k"}, {Type: tok.TArrOpen, Length: -1}, {Type: tok.TInt, Int: 1}},
+		{{Type: tok.TArrOpen, Length: 1}, {Type: tok.TMapOpen, Length: 0}, {Type: tok.TMapClose}, {Type: tok.TArrClose}},
+		{{Type: tok.TMapOpen, Length: 1}, {Type: tok.TString, Str: "k"}},
+		{{Type: tok.TInt, Int: 5}},
+		{{Type: tok.TArrOpen, Length: 2}, {Type: tok.TInt, Int: 1}},
+		{{Type: tok.TMapOpen, Length: 1}, {Type: tok.TString, Str: "k"}, {Type: tok.TArrOpen, Length: 0}, {Type: tok.TArrClose}, {Type: tok.TMapClose}},
+	}
+	for _, t := range seqs[sinkPoison%len(seqs)] {
+		slot := t
+		func() {
+			defer func() { recover() }()
+			enc.Step(&slot)
+		}()
+	}
+	r.Reset()
+}
+
 func runCborEnc(payload string) string {
 	ts, err := parseTokens(payload)
 	if err != nil {
@@ -72,6 +101,8 @@ func runCborEnc(payload string) string {
 	}
 	w := &chunkWriter{}
 	enc := cbor.NewEncoder(w)
+	poisonSink(enc)
+	w.buf, w.chunks = nil, nil
 	class, used := driveSink(enc, ts)
 	res := fmt.Sprintf("%s %d %s %s", class, used, hexOrDash(w.buf), chunkLens(w.chunks))
 	if class == "fin" {
